@@ -129,7 +129,7 @@ def exact_obligations(e, n, group=None):
     wt.update({("y%d" % i): ys[i] for i in range(n)})
     try:
         dom = RealDomain(False)
-        res = sl.explore(e, "constrained_spline", n, dom)
+        res = sl.explore(e, "constrained_spline", n, dom, pre=pre)
     except (Unsupported, PathLimit) as ex:
         e.not_encoded("spline[n=%d]" % n, "whole-function encoding of constrained_spline", ex, FUNCS)
         return
@@ -213,7 +213,8 @@ def rounding_left_knot(e):
     try:
         dom = RealDomain(True)
         it = e.interp(dom)
-        fn = e.program.find("spline::segment")
+        fn = e.program.find_kernel("spline::segment", "spline", ["f64", "Knot", "f64", "Knot"], "Poly3")
+        funcs = [fn.name]
         from interp import Struct
 
         def mk(d):
